@@ -731,6 +731,13 @@ func (env *SpecEnv) call(x *ECall) *Val {
 			return mkBool(tSel(st.heapGet("A|"+l.className(), "(Array Int Bool)"), l.Ref))
 		}
 		return mkInt(tSel(st.heapGet("A|"+l.className(), "(Array Int Int)"), l.Ref), nil)
+	case "atomicsOf":
+		// atomicsOf("pkg.Type.field"): the atomic.Bool state of that field in every object (a ghost map)
+		sl, ok := x.Args[0].(*EStr)
+		if !ok {
+			return env.fail("atomicsOf needs a string literal")
+		}
+		return &Val{K: KArr, S: st.heapGet("A|"+sl.S, "(Array Int Bool)"), Org: "ghost (Array Int Bool)"}
 	case "closed":
 		return mkBool(tSel(st.heapGet("X|closed", "(Array Int Bool)"), arg(0).S))
 	case "has":
